@@ -22,6 +22,23 @@ IMPORTS = ["UPV.Core.Expr", "UPV.Core.Eval", "UPV.Core.Interp", "UPV.Planning.Pr
            "UPV.Planning.Temporal", "UPV.Planning.TTValidate", "UPV.Corr.Corr_C01", "UPV.Corr.Corr_C05"]
 
 
+def codes_by_problem(ctx, cases, case_problem, pre, fn, imports, chunk=12, shard=100, label="codes"):
+    """ctx.coq_codes over consecutive chunks of problems: each generated .v file defines only the problems of its chunk.
+    pre: [(problem index, definitions)] in generation order; case_problem[i] = problem index of cases[i] (non-decreasing)."""
+    out = []
+    for k in range(0, len(pre), chunk):
+        part = pre[k:k + chunk]
+        idx = set(pi for pi, _ in part)
+        sel = [i for i, pi in enumerate(case_problem) if pi in idx]
+        if not sel:
+            continue
+        assert sel == list(range(sel[0], sel[-1] + 1))
+        out += ctx.coq_codes([cases[i] for i in sel], fn, imports=imports, preamble="\n".join(t for _, t in part) + "\n",
+                             shard=shard, label="%s%d" % (label, k))
+    assert len(out) == len(cases)
+    return out
+
+
 def tt_validate(problem, steps):
     """(valid?, raised, result) through the public API of the real validator"""
     from unified_planning.engines.plan_validator import TimeTriggeredPlanValidator
@@ -163,7 +180,7 @@ def run(ctx):
     import unified_planning as up
     ok_proofs = ctx.check_props(extra=["theories/Corr/Corr_C05.v"])
     rng = ctx.rng
-    nprob = 30 if ctx.quick else 300
+    nprob = 30 if ctx.quick else 250
     nplans = 20 if ctx.quick else 60
     pre, cases, owners = [], [], []
     stats = {"problems": 0, "skipped": {}, "plans": 0, "valid": 0, "invalid": 0, "raised": 0, "outside_supported": 0,
@@ -231,7 +248,7 @@ def run(ctx):
                 stats["forall_effects"] += e.is_forall()
                 stats["conditional_effects"] += e.is_conditional()
                 stats["incdec_effects"] += not e.is_assignment()
-        pre.append("Definition TP%d : tproblem := %s." % (pi, text))
+        pre.append((pi, "Definition TP%d : tproblem := %s." % (pi, text)))
         s0 = ser.read_state(up.model.UPState(p.explicit_initial_values, p))
         for steps in final:
             steps = fresh(steps)
@@ -252,8 +269,8 @@ def run(ctx):
             owners.append((gen, ser, rec, s0))
             if nontrivial(steps, p):
                 nontriv.add(json.dumps(rec, sort_keys=True, default=str))
-    codes = ctx.coq_codes(cases, "fun pc => code (fst pc) (snd pc)", imports=IMPORTS, preamble="\n".join(pre) + "\n",
-                          shard=100, label="ttplans")
+    codes = codes_by_problem(ctx, cases, [o[2]["problem"] for o in owners], pre, "fun pc => code (fst pc) (snd pc)",
+                             IMPORTS, chunk=12, shard=100, label="ttplans")
     for (gen, ser, rec, s0), code in zip(owners, codes):
         payload = {"case": rec, "initial_state": ser.json_state(s0), "problem_text": str(gen.problem), "code_bits": code,
                    "names": ser.names.table()}
